@@ -51,3 +51,4 @@ include!("c04.rs");
 include!("c06.rs");
 include!("c07.rs");
 include!("c19.rs");
+include!("c15.rs");
